@@ -11,6 +11,7 @@ import (
 	"os"
 	"os/exec"
 	"path/filepath"
+	"regexp"
 	"sort"
 	"strings"
 	"testing"
@@ -68,7 +69,7 @@ func gen(t *rapid.T) Case {
 		c.Kind = "model-program"
 		p, _ := prog.Generate(t, prog.Profile{Scopes: true, Control: true, Errors: true, IncDec: true, MaxDepth: 3, MaxStmts: 4})
 		extra := ""
-		switch rapid.IntRange(0, 4).Draw(t, "extra") {
+		switch rapid.IntRange(0, 6).Draw(t, "extra") {
 		case 0:
 			extra = "println(args)\nprintln(len(args))\n"
 		case 1:
@@ -77,6 +78,11 @@ func gen(t *rapid.T) Case {
 			extra = "strs = import(\"strings\")\nprintln(strs.ToUpper(\"abc\"), strs.Repeat(\"x\", 3))\n"
 		case 3:
 			extra = "math = import(\"math\")\nprintf(\"%v %v\\n\", math.Abs(-2.5), len(args))\n"
+		case 4:
+			// output through a bundled package interleaved with the core builtins
+			extra = "fmt = import(\"fmt\")\nprintln(\"core 1\")\nfmt.Println(\"pkg 1\")\nprint(\"core 2;\")\nfmt.Printf(\"pkg %d\\n\", 2)\nprintln(\"core 3\")\n"
+		case 5:
+			extra = "fmt = import(\"fmt\")\nfmt.Print(\"x\", 1, \"\\n\")\nfor fi = 0; fi < 2; fi++ {\n  println(fi)\n  fmt.Println(\"pkg\", fi)\n}\n"
 		}
 		c.Src = scriptProbes + extra + prog.Print(p)
 		if rapid.IntRange(0, 3).Draw(t, "tail") == 0 {
@@ -122,8 +128,13 @@ func ankoBinary() string {
 	return filepath.Join(filepath.Dir(os.Getenv("VERIF_SCRATCH")), "anko")
 }
 
-// canon sorts runs of lines printed by probes with negative ids (multi-entry map loops).
+var addrRe = regexp.MustCompile(`0x[0-9a-f]{6,}`)
+
+// canon sorts runs of lines printed by probes with negative ids (multi-entry map loops) and
+// masks pointer addresses (a thrown or printed pointer formats as its address, which
+// differs between two processes).
 func canon(out string) string {
+	out = addrRe.ReplaceAllString(out, "0xADDR")
 	lines := strings.Split(out, "\n")
 	i := 0
 	for i < len(lines) {
@@ -147,20 +158,30 @@ type inproc struct {
 	timeout bool
 }
 
+// runInProcess executes src with vm.Execute in an environment prepared like anko.go does
+// (args, core.Import, blank import of packages). The process's standard output is
+// redirected to a temporary file for the duration of the run, so everything the script
+// prints - through the core builtins or through bundled packages such as fmt / os - is
+// captured in the order it was written.
 func runInProcess(src string, args []string) inproc {
-	var buf bytes.Buffer
 	e := env.NewEnv()
 	if args == nil {
 		args = []string{}
 	}
 	e.Define("args", args)
 	core.Import(e)
-	e.Define("print", func(a ...interface{}) (int, error) { return fmt.Fprint(&buf, a...) })
-	e.Define("println", func(a ...interface{}) (int, error) { return fmt.Fprintln(&buf, a...) })
-	e.Define("printf", func(f string, a ...interface{}) (int, error) { return fmt.Fprintf(&buf, f, a...) })
-	ctx, cancel := context.WithTimeout(context.Background(), 2*time.Second)
-	defer cancel()
 	var r inproc
+	f, err := os.CreateTemp(os.Getenv("VERIF_SCRATCH"), "c18-stdout-")
+	if err != nil {
+		r.err = fmt.Errorf("HOST PANIC cannot capture stdout: %v", err)
+		return r
+	}
+	defer os.Remove(f.Name())
+	saved := os.Stdout
+	os.Stdout = f
+	// the core print builtins were bound to fmt.Print* when core.Import ran; they write to
+	// os.Stdout at call time, so the redirection covers them as well
+	ctx, cancel := context.WithTimeout(context.Background(), 2*time.Second)
 	func() {
 		defer func() {
 			if p := recover(); p != nil {
@@ -170,7 +191,11 @@ func runInProcess(src string, args []string) inproc {
 		_, r.err = vm.ExecuteContext(ctx, e, nil, src)
 	}()
 	r.timeout = ctx.Err() != nil
-	r.out = buf.String()
+	cancel()
+	os.Stdout = saved
+	f.Close()
+	b, _ := os.ReadFile(f.Name())
+	r.out = string(b)
 	return r
 }
 
